@@ -357,6 +357,7 @@ Fixpoint decode (run : sgrseq -> pen -> res pen) (st : pen) (toks : list tok) : 
   | [] => Ok ([], st)
   | TSgr ps :: t => match run ps st with Ok st' => decode run st' t | Panic => Panic end
   | TOsc8 _ _ :: t => decode run st t
+  | TText [] :: t => decode run st t           (* an empty grapheme writes no bytes *)
   | TText g :: t => match decode run st t with
                     | Ok (cs, fin) => Ok ((g, st) :: cs, fin)
                     | Panic => Panic
@@ -387,11 +388,14 @@ Definition basic_codes : list Z :=
 Definition mem (k : Z) (l : list Z) : bool := existsb (Z.eqb k) l.
 Definition in_vocab (s : sgrseq) : bool :=
   match s with
-  | [] => true
-  | [[k]] => mem k basic_codes
-  | [[4; _]] => true
-  | [[c; 5; _]] => mem c [38; 48; 58]
-  | [[c; 2; _; _; _]] => mem c [38; 48; 58]
+  | [] => true                                                  (* ESC[m *)
+  | [p] => match p with
+           | [k] => mem k basic_codes
+           | [k; _] => k =? 4                                   (* 4:n *)
+           | [c; m; _] => mem c [38; 48; 58] && (m =? 5)        (* 38:5:n *)
+           | [c; m; _; _; _] => mem c [38; 48; 58] && (m =? 2)  (* 38:2:r:g:b *)
+           | _ => false
+           end
   | _ => false
   end.
 
@@ -408,6 +412,13 @@ Record codec_obs := mkCodecObs {
   o_fin_term : pen             (* pen of the emulator at the end of o_encE *)
 }.
 Definition codec_case : Type := list cell * codec_obs.
+(* transport form used by the case files (Coq elaborates literals slowly): [None] = the harness
+   found this observation equal, as a Go value, to o_encE (for encS) / o_parsed (for the lists) *)
+Definition mkCodecW (encE : text) (encS : option text) (parsed : list pcell)
+    (styled term : option (list pcell)) (fp ft : pen) : codec_obs :=
+  mkCodecObs encE (match encS with Some t => t | None => encE end) parsed
+    (match styled with Some l => l | None => parsed end)
+    (match term with Some l => l | None => parsed end) fp ft.
 
 Definition res_cells_eqb (r : res (list pcell * pen)) (cs : list pcell) (fin : pen) : bool :=
   match r with Ok (c, f) => pcells_eqb c cs && pen_eqb f fin | Panic => false end.
@@ -448,6 +459,9 @@ Record render_obs := mkRenderObs {
   r_fin_term : pen
 }.
 Definition render_case : Type := (bool * bool) * list pcell * render_obs.
+Definition mkRenderW (out : text) (parsed : list pcell) (styled term : option (list pcell)) (ft : pen) : render_obs :=
+  mkRenderObs out parsed (match styled with Some l => l | None => parsed end)
+    (match term with Some l => l | None => parsed end) ft.
 
 Definition render_model_ok (c : render_case) : bool :=
   let '((rgb, smulx), cells, o) := c in
